@@ -287,6 +287,9 @@ def handle (op : String) (args : List String) : String :=
       | .ok (e', _) => okE e'
       | .error err => "err\t" ++ err.render)
     | _, _ => bad
+  | "wfq", [e] => match parseExpr e with
+    | some e => "ok\t" ++ (if wfq e then "true" else "false")
+    | none => bad
   | "backend", [c, e] => match c.toNat?, parseExpr e with
     | some c, some e => (match backend (400 * e.size + 800) c e with
       | .ok e' => okE e'
